@@ -109,7 +109,7 @@ type pkgT struct {
 	pkg   *types.Package
 }
 
-var groupPool = []string{"alpha", "beta", "gamma2", "δelta", "_x", "Eps", "zeta", "all", "Mul", "chainA", "chainB"}
+var groupPool = []string{"alpha", "beta", "gamma2", "δelta", "_x", "Eps", "zeta", "all", "Mul", "chainA", "chainB", "del"}
 
 // groupBody: the rules of one group at message version v. Groups never match the same AST node (the engine
 // reports only the first matching rule per node, so only then is "reports of the enabled groups" = "reports of
@@ -120,7 +120,8 @@ func groupBody(name string, v int) string {
 	case "alpha":
 		return "\tm.Match(`pa1($x)`).Report(`" + tag + " sees $x`)\n"
 	case "beta":
-		return "\tm.Match(`pb1($x)`).Report(`" + tag + " $x`).Suggest(`bar($x)`)\n"
+		// the report is moved to the argument, the suggestion still replaces the whole call
+		return "\tm.Match(`pb1($x)`).Report(`" + tag + " $x`).Suggest(`bar($x)`).At(m[\"x\"])\n"
 	case "gamma2":
 		return "\tm.Match(`$x + $y`).Report(`" + tag + " sum`).At(m[\"y\"])\n" +
 			"\tm.Match(`pg2($x, $y)`).Suggest(`pg2($y, $x)`)\n"
@@ -142,6 +143,9 @@ func groupBody(name string, v int) string {
 		return "\tm.Match(`legacy($x).then($y)`).Report(`same text`).Suggest(`modern($x, $y)`)\n"
 	case "chainB":
 		return "\tm.Match(`legacy($x)`).Report(`same text`)\n"
+	case "del":
+		// a suggestion that renders to the empty text (deletion) when the call has no arguments
+		return "\tm.Match(`pdel($*xs)`).Report(`" + tag + " del`).Suggest(`$xs`)\n"
 	}
 	return ""
 }
@@ -162,6 +166,7 @@ func pg2(a, b interface{})   {}
 func pd1(x int) int          { return x }
 func pz1(x interface{})      {}
 func pz2(x, y interface{})   {}
+func pdel(args ...int)       {}
 
 type chain struct{}
 
@@ -183,6 +188,8 @@ func f(a, b int) int {
 	pz1(a)
 	pz2("k", b)
 	_ = a * b * 3
+	pdel()
+	pdel(1, b)
 	legacy(1).then(2)
 	legacy(a).then(b).then(5)
 	if a == a {
@@ -359,7 +366,29 @@ func nameList(rng *rand.Rand, groups []string, forEnable bool) string {
 		var name string
 		switch rng.Intn(10) {
 		case 0:
-			name = pick(rng, []string{"unknown", "Alpha", "alph", "alphaa", "x/alpha", "al pha", "δ", "<all>", "beta\x00"})
+			name = pick(rng, []string{"unknown", "x/alpha", "δ", "<all>", "beta\x00"})
+		case 2:
+			// a near miss of one of the scenario's own groups
+			g := pick(rng, groups)
+			rs := []rune(g)
+			switch rng.Intn(6) {
+			case 0:
+				name = strings.ToUpper(string(rs[:1])) + string(rs[1:])
+				if name == g {
+					name = strings.ToLower(string(rs[:1])) + string(rs[1:])
+				}
+			case 1:
+				name = string(rs[:len(rs)-1])
+			case 2:
+				name = g + string(rs[len(rs)-1:])
+			case 3:
+				name = string(rs[:1]) + " " + string(rs[1:])
+			default:
+				name = strings.ToUpper(g)
+				if rng.Intn(2) == 0 && strings.ToLower(g) != g {
+					name = strings.ToLower(g)
+				}
+			}
 		case 1:
 			name = ""
 		default:
